@@ -591,7 +591,8 @@ impl Store {
                         let Some(&letter) = tag0.first() else {
                             continue;
                         };
-                        if let Some(tagvalue) = tag.next() {
+                        // every listed value may match: scan each of them
+                        for tagvalue in tag {
                             let iter = self.indexes.atc_iter(
                                 author,
                                 letter,
@@ -650,7 +651,8 @@ impl Store {
                         let Some(&letter) = tag0.first() else {
                             continue;
                         };
-                        if let Some(tagvalue) = tag.next() {
+                        // every listed value may match: scan each of them
+                        for tagvalue in tag {
                             let iter = self.indexes.ktc_iter(
                                 kind,
                                 letter,
@@ -708,7 +710,8 @@ impl Store {
                     let Some(&letter) = tag0.first() else {
                         continue;
                     };
-                    if let Some(tagvalue) = tag.next() {
+                    // every listed value may match: scan each of them
+                    for tagvalue in tag {
                         let iter =
                             self.indexes
                                 .tc_iter(letter, tagvalue, since, filter.until(), &txn)?;
